@@ -8,6 +8,7 @@
 package eng
 
 import (
+	"context"
 	"encoding/json"
 	"errors"
 	"fmt"
@@ -949,8 +950,11 @@ func TestSpawns(t *testing.T) {
 
 type Req struct {
 	R int    `json:"r"` // responder
-	B string `json:"b"` // reply none late twice held
-	T int    `json:"t"` // timeout in ms for none/late/held
+	B string `json:"b"` // reply none late twice held twicelate (second Respond from the same Receive, after Result() returned)
+	// Via: 0 = Engine.Request from a goroutine; 1 = Context.Request from inside a requester actor; 2 = the
+	// same, the requester actor having been spawned WithContext(a context that is cancelled already)
+	Via int `json:"via,omitempty"`
+	T   int `json:"t"` // timeout in ms for none/late/held
 }
 
 type RCase struct {
@@ -962,6 +966,8 @@ type reqMsg struct {
 	Token   int
 	B       string
 	replied chan struct{}
+	again   chan struct{} // twicelate: closed by the requester once Result() has returned
+	done    chan struct{} // twicelate: closed by the responder after its second Respond
 }
 type repMsg struct {
 	Token  int
@@ -998,6 +1004,11 @@ func runRequests(c RCase) (map[string]int, error) {
 					ctx.Respond(repMsg{Token: m.Token, Second: true})
 				case "late":
 					held[m.Token] = ctx.Sender()
+				case "twicelate":
+					ctx.Respond(repMsg{Token: m.Token})
+					<-m.again
+					ctx.Respond(repMsg{Token: m.Token, Second: true})
+					close(m.done)
 				case "held":
 					// reply at once; the requester collects it only after more than the timeout
 					ctx.Respond(repMsg{Token: m.Token})
@@ -1035,8 +1046,33 @@ func runRequests(c RCase) (map[string]int, error) {
 				// "arrived within the timeout" needs a timeout that has not passed yet when the reply arrives
 				timeout = time.Duration(max(r.T, 5)) * time.Millisecond
 			}
-			rq := reqMsg{Token: i, B: r.B, replied: make(chan struct{})}
-			rs := e.Request(resp[r.R], rq, timeout)
+			rq := reqMsg{Token: i, B: r.B, replied: make(chan struct{}), again: make(chan struct{}), done: make(chan struct{})}
+			var rs *actor.Response
+			if r.Via == 0 {
+				rs = e.Request(resp[r.R], rq, timeout)
+			} else {
+				// the request is made by an actor, from inside its Receive
+				got := make(chan *actor.Response, 1)
+				opts := []actor.OptFunc{}
+				if r.Via == 2 {
+					cctx, cancel := context.WithCancel(context.Background())
+					cancel()
+					opts = append(opts, actor.WithContext(cctx))
+				}
+				rp := e.SpawnFunc(func(c *actor.Context) {
+					if _, ok := c.Message().(int); ok {
+						got <- c.Request(resp[r.R], rq, timeout)
+					}
+				}, "requester", opts...)
+				e.Send(rp, 1)
+				select {
+				case rs = <-got:
+				case <-time.After(wait):
+					out[i].err = fmt.Errorf("%w: requester actor did not issue its request", errInconclusive)
+					return
+				}
+				defer e.Poison(rp)
+			}
 			out[i].respID = rs.PID().ID
 			if r.B == "held" {
 				// the reply is in the response's mailbox, well inside the timeout; Result() is called late
@@ -1049,6 +1085,9 @@ func runRequests(c RCase) (map[string]int, error) {
 			t0 := time.Now()
 			v, err := rs.Result()
 			el := time.Since(t0)
+			if r.B == "twicelate" {
+				close(rq.again) // Result() has returned: the responder may send its second reply now
+			}
 			switch {
 			case err != nil && r.B == "held":
 				out[i].err = fmt.Errorf("request %d: the reply arrived before Result() was called (well within the timeout of %v), yet Result() returned the error %v", i, timeout, err)
@@ -1066,7 +1105,7 @@ func runRequests(c RCase) (map[string]int, error) {
 			case el < timeout:
 				out[i].err = fmt.Errorf("request %d: Result() failed with %v after %v, before its timeout of %v had passed", i, err, el, timeout)
 				return
-			case r.B == "reply" || r.B == "twice":
+			case r.B == "reply" || r.B == "twice" || r.B == "twicelate":
 				out[i].err = fmt.Errorf("%w: request %d got no reply within %v", errInconclusive, i, timeout)
 				return
 			}
@@ -1075,6 +1114,11 @@ func runRequests(c RCase) (map[string]int, error) {
 			if p := e.Registry.GetPID(parts[0], parts[1]); p != nil {
 				out[i].err = fmt.Errorf("request %d (%s): after Result() returned (err=%v) the response PID %s is still registered", i, r.B, err, out[i].respID)
 				return
+			}
+			if r.B == "twicelate" {
+				if err := waitCh(rq.done, "responder did not send its second reply"); err != nil {
+					out[i].err = err
+				}
 			}
 			if r.B == "late" {
 				f := fire{i, make(chan struct{})}
@@ -1115,13 +1159,13 @@ func runRequests(c RCase) (map[string]int, error) {
 	mon.mu.Lock()
 	defer mon.mu.Unlock()
 	for i, r := range c.Reqs {
-		if r.B != "late" {
+		if r.B != "late" && r.B != "twicelate" {
 			continue
 		}
 		k := 0
 		for _, dl := range mon.dls {
 			if dl.Target != nil && dl.Target.ID == out[i].respID {
-				if m, ok := dl.Message.(repMsg); !ok || m.Token != i {
+				if m, ok := dl.Message.(repMsg); !ok || m.Token != i || (r.B == "twicelate" && !m.Second) {
 					return nil, fmt.Errorf("request %d: the dead letter for its late reply carries %#v", i, dl.Message)
 				}
 				k++
@@ -1142,8 +1186,9 @@ func genRequests(t *rapid.T) RCase {
 	n := rapid.IntRange(1, 32).Draw(t, "n")
 	for i := 0; i < n; i++ {
 		c.Reqs = append(c.Reqs, Req{
-			R: rapid.IntRange(0, c.Responders-1).Draw(t, "r"),
-			B: rapid.SampledFrom([]string{"reply", "reply", "reply", "twice", "none", "late", "held"}).Draw(t, "b"),
+			R:   rapid.IntRange(0, c.Responders-1).Draw(t, "r"),
+			B:   rapid.SampledFrom([]string{"reply", "reply", "reply", "twice", "none", "late", "held", "twicelate"}).Draw(t, "b"),
+			Via: rapid.SampledFrom([]int{0, 0, 0, 1, 2}).Draw(t, "via"),
 			// 0 = a request whose timeout has passed as soon as it is made (Result() must still clean up)
 			T: rapid.SampledFrom([]int{0, 0, 5, 8, 13, 21, 30, 40}).Draw(t, "t"),
 		})
